@@ -86,6 +86,32 @@ void BuildMaybeSplit(TA& a, const json& c, Alpha& alpha, Warm warm)
 	BuildTA(a, rest, alpha);
 }
 
+// the second operand of a pair operation.  bmode "copy": a copy of A (sharing its storage); "extend": a copy of A that is then
+// EDITED through the public API into the value c.B (c.B's rules contain A's; final states are replaced when they are not a
+// superset) - the operands share whatever the copy-on-write scheme leaves shared; otherwise built on its own from c.B
+TA MakeSecond(const TA& a, const json& c, Alpha& alpha)
+{
+	std::string bmode = c.value("bmode", "");
+	if (bmode == "copy" || bmode == "alias") { return TA(a); }
+	if (bmode != "extend") { return MakeTA(c.at("B"), alpha); }
+	TA b(a);
+	const json& jb = c.at("B");
+	std::set<size_t> fb;
+	for (const json& q : jb.at("fin")) { fb.insert(StIn(q.get<size_t>())); }
+	bool superset = true;
+	for (size_t q : a.GetFinalStates()) { if (!fb.count(q)) { superset = false; } }
+	if (!superset) { b.EraseFinalStates(); }
+	for (size_t q : fb) { b.SetStateFinal(q); }
+	// only the rules A does not have are added (adding nothing leaves the transition storage shared with A)
+	std::set<std::string> have;
+	if (c.contains("A")) { for (const json& r : c.at("A").at("rules")) { have.insert(r.dump()); } }
+	json extra;
+	extra["rules"] = json::array();
+	for (const json& r : jb.at("rules")) { if (!have.count(r.dump())) { extra["rules"].push_back(r); } }
+	BuildTA(b, extra, alpha);
+	return b;
+}
+
 void fillMap(AutBase::StateToStateMap& m, const json& j)
 {
 	for (const json& kv : j) { m[kv.at(0).get<size_t>()] = kv.at(1).get<size_t>(); }
@@ -104,7 +130,7 @@ VDRIVE_OP(incl)
 	TA b0 = MakeTA(c.at("B"), alpha);
 	TA a;
 	BuildMaybeSplit(a, c, alpha, [&b0](TA& x) { for (const Sel& sel : SELS) { runIncl(x, b0, sel); runIncl(b0, x, sel); } });
-	TA bc = (bmode == "copy") ? TA(a) : b0;
+	TA bc = (bmode == "copy" || bmode == "extend") ? MakeSecond(a, c, alpha) : b0;
 	const TA& b = (bmode == "alias") ? a : bc;
 	json res;
 	json v = json::array();
@@ -124,7 +150,7 @@ VDRIVE_OP(union)
 	if (c.contains("syms")) { alpha.RegisterAll(c["syms"]); }
 	TA a = MakeTA(c.at("A"), alpha);
 	std::string bmode = c.value("bmode", "");
-	TA bc = (bmode == "copy") ? TA(a) : MakeTA(c.at("B"), alpha);
+	TA bc = MakeSecond(a, c, alpha);
 	const TA& b = (bmode == "alias") ? a : bc;
 	std::string maps = c.value("maps", "fresh");
 	AutBase::StateToStateMap ml, mr;
@@ -163,7 +189,7 @@ VDRIVE_OP(isect)
 	if (c.contains("syms")) { alpha.RegisterAll(c["syms"]); }
 	TA a = MakeTA(c.at("A"), alpha);
 	std::string bmode = c.value("bmode", "");
-	TA bc = (bmode == "copy") ? TA(a) : MakeTA(c.at("B"), alpha);
+	TA bc = MakeSecond(a, c, alpha);
 	const TA& b = (bmode == "alias") ? a : bc;
 	bool bu = c.value("bu", false);
 	std::string maps = c.value("maps", "fresh");
@@ -510,7 +536,7 @@ VDRIVE_OP(twin)
 {
 	Alpha alpha;
 	TA a = MakeTA(c.at("A"), alpha);
-	TA b = MakeTA(c.at("B"), alpha);
+	TA b = MakeSecond(a, c, alpha);
 	json v = json::array(), vt = json::array();
 	for (const Sel& sel : SELS) { v.push_back(runIncl(a, b, sel)); }
 	json ta2, tb2, syms2;
@@ -548,9 +574,28 @@ VDRIVE_OP(inclagree)
 		if (shape == "dense" || shape == "near") { al = &alphas[rng() % 3]; nqa = 1 + rng() % 3; nra = 2 + rng() % 4; nqb = 2 + rng() % 3; nrb = 3 + rng() % 6; }
 		else if (shape == "mid") { al = &alphas[2]; nqa = 2 + rng() % 3; nra = 3 + rng() % 6; nqb = 2 + rng() % 4; nrb = 4 + rng() % 9; }
 		else { al = &alphas[3]; nqa = 2 + rng() % 5; nra = 4 + rng() % 13; nqb = 2 + rng() % 5; nrb = 4 + rng() % 13; }
-		json ja = randAut(rng, *al, nqa, nra, (rng() % 2) ? 0 : 3);
+		size_t baseA = (rng() % 2) ? 0 : 3;
+		json ja = randAut(rng, *al, nqa, nra, baseA);
 		json jb = randAut(rng, *al, nqb, nrb, (rng() % 3 == 0) ? 0 : 10);
-		if (shape == "near" || (twin && rng() % 2))
+		// "edit": B is a COPY of A edited in place through the API (final states changed, a few rules over A's own states
+		// added): the operands share whatever copy-on-write leaves shared, and are nearly equal
+		bool edit = (shape == "edit") || (rng() % 100 < 12);
+		if (edit)
+		{
+			jb = ja;
+			unsigned how = rng() % 100;
+			json fin = json::array();
+			if (how < 30) { fin = ja["fin"]; fin.push_back(baseA + rng() % nqa); }
+			else if (how < 60) { for (auto& q : ja["fin"]) { if (rng() % 2) { fin.push_back(q); } } }
+			else if (how < 75) { for (size_t q = 0; q < nqa; ++q) { if (rng() % 100 < 40) { fin.push_back(baseA + q); } } }
+			else { fin = ja["fin"]; }
+			std::set<size_t> fs;
+			for (auto& q : fin) { fs.insert(q.get<size_t>()); }
+			jb["fin"] = fs;
+			json extra = randAut(rng, *al, nqa, rng() % 3, baseA);
+			for (auto& r : extra["rules"]) { jb["rules"].push_back(r); }
+		}
+		else if (shape == "near" || (twin && rng() % 2))
 		{	// "nearly included": B is a shifted copy of A with a rule dropped and a few rules added
 			size_t base = (ja["fin"].empty() ? 0 : 0);
 			(void)base;
@@ -576,7 +621,11 @@ VDRIVE_OP(inclagree)
 		SetStage(("inclagree pair " + std::to_string(i)).c_str());
 		Alpha alpha;
 		TA a = MakeTA(ja, alpha);
-		TA b = MakeTA(jb, alpha);
+		json second;
+		second["A"] = ja;
+		second["B"] = jb;
+		if (edit) { second["bmode"] = "extend"; }
+		TA b = MakeSecond(a, second, alpha);
 		json v = json::array();
 		bool same = true;
 		for (const Sel& sel : SELS)
@@ -606,6 +655,7 @@ VDRIVE_OP(inclagree)
 			json ev;
 			ev["op"] = twin ? "twin" : "incl";
 			ev["A"] = ja; ev["B"] = jb;
+			if (edit) { ev["bmode"] = "extend"; }
 			ev["outcome"] = "ok";
 			ev["src"] = "agreement-arm";
 			ev["id"] = json::array({"agree", c.at("seed"), i});
